@@ -147,6 +147,91 @@ theorem move_inside (c : SwapCtx) (ps : List (Nat × PositionD)) (s s' : SwapSt)
       have nh : ¬ (s.tick < hi ∧ hi ≤ s'.tick) := fun ⟨a, b⟩ => by have := hno hi a b gh; rw [ih] at this; cases this
       exact inside_cur_congr _ _ _ _ _ _ _ (by constructor <;> intro h <;> omega) (by constructor <;> intro h <;> omega)
 
+/-- the same for ANY per-tick accumulator `proj` that a crossing flips against `G` (fees A, B and each
+    initialized reward) -/
+theorem move_inside_gen (c : SwapCtx) (ps : List (Nat × PositionD)) (s s' : SwapSt) (nti lo hi : Int) (proj : TickData → Nat) (G : Nat)
+    (tf : TickFacts s.ticks ps c.ts) (wf : ∀ t, proj (s.ticks.get t) < TWO128) (hG : G < TWO128) (hlh : lo < hi)
+    (bl : Bound ps lo) (bh : Bound ps hi)
+    (hmove : (s'.tick = (if c.aToB then nti - 1 else nti) ∧
+      ((initAt s.ticks nti = true ∧ ∃ T', s'.ticks = s.ticks.set nti T' ∧ proj T' = wsub G (proj (s.ticks.get nti))) ∨
+       (initAt s.ticks nti = false ∧ s'.ticks = s.ticks)) ∧
+      (if c.aToB then nti ≤ s.tick ∧ ∀ x, nti < x → x ≤ s.tick → x % (c.ts : Int) = 0 → initAt s.ticks x = false
+       else s.tick < nti ∧ ∀ x, s.tick < x → x < nti → x % (c.ts : Int) = 0 → initAt s.ticks x = false)) ∨
+     (s'.ticks = s.ticks ∧
+      (if c.aToB then s'.tick ≤ s.tick ∧ ∀ x, s'.tick < x → x ≤ s.tick → x % (c.ts : Int) = 0 → initAt s.ticks x = false
+       else s.tick ≤ s'.tick ∧ ∀ x, s.tick < x → x ≤ s'.tick → x % (c.ts : Int) = 0 → initAt s.ticks x = false))) :
+    insideInit s'.tick lo (proj (s'.ticks.get lo)) hi (proj (s'.ticks.get hi)) G =
+      insideInit s.tick lo (proj (s.ticks.get lo)) hi (proj (s.ticks.get hi)) G := by
+  obtain ⟨il, gl⟩ := bound_init s.ticks ps c.ts tf lo bl
+  obtain ⟨ih, gh⟩ := bound_init s.ticks ps c.ts tf hi bh
+  have hoL := wf lo
+  have hoH := wf hi
+  rcases hmove with ⟨htick, hflip, hpath⟩ | ⟨hticks, hpath⟩
+  · by_cases hd : c.aToB = true
+    · rw [if_pos hd] at htick hpath
+      obtain ⟨hle, hno⟩ := hpath
+      -- lo and hi are not strictly between nti and the old tick
+      have nl : ¬ (nti < lo ∧ lo ≤ s.tick) := fun ⟨a, b⟩ => by have := hno lo a b gl; rw [il] at this; cases this
+      have nh : ¬ (nti < hi ∧ hi ≤ s.tick) := fun ⟨a, b⟩ => by have := hno hi a b gh; rw [ih] at this; cases this
+      -- first: from the old tick down to nti, nothing changes
+      have e1 : insideInit s.tick lo (proj (s.ticks.get lo)) hi (proj (s.ticks.get hi)) G =
+          insideInit nti lo (proj (s.ticks.get lo)) hi (proj (s.ticks.get hi)) G :=
+        inside_cur_congr _ _ _ _ _ _ _ (by constructor <;> intro h <;> omega) (by constructor <;> intro h <;> omega)
+      rw [e1, htick]
+      rcases hflip with ⟨hin, T', hset, hproj⟩ | ⟨hin, hsame⟩
+      · rw [hset, C05.tick_get_set, C05.tick_get_set]
+        by_cases e : lo = nti
+        · have e' : ¬ hi = nti := by omega
+          rw [if_pos e, if_neg e', hproj, ← e]
+          exact cross_lower_left lo hi _ _ G hlh hG hoL
+        · rw [if_neg e]
+          by_cases e' : hi = nti
+          · rw [if_pos e', hproj, ← e']
+            exact cross_upper_left lo hi _ _ G hlh hG hoH
+          · rw [if_neg e']
+            exact inside_cur_congr _ _ _ _ _ _ _ (by constructor <;> intro h <;> omega) (by constructor <;> intro h <;> omega)
+      · rw [hsame]
+        have e : ¬ lo = nti := fun e => by rw [e, hin] at il; cases il
+        have e' : ¬ hi = nti := fun e => by rw [e, hin] at ih; cases ih
+        exact inside_cur_congr _ _ _ _ _ _ _ (by constructor <;> intro h <;> omega) (by constructor <;> intro h <;> omega)
+    · rw [if_neg hd] at htick hpath
+      obtain ⟨hlt, hno⟩ := hpath
+      have nl : ¬ (s.tick < lo ∧ lo < nti) := fun ⟨a, b⟩ => by have := hno lo a b gl; rw [il] at this; cases this
+      have nh : ¬ (s.tick < hi ∧ hi < nti) := fun ⟨a, b⟩ => by have := hno hi a b gh; rw [ih] at this; cases this
+      have e1 : insideInit s.tick lo (proj (s.ticks.get lo)) hi (proj (s.ticks.get hi)) G =
+          insideInit (nti - 1) lo (proj (s.ticks.get lo)) hi (proj (s.ticks.get hi)) G :=
+        inside_cur_congr _ _ _ _ _ _ _ (by constructor <;> intro h <;> omega) (by constructor <;> intro h <;> omega)
+      rw [e1, htick]
+      rcases hflip with ⟨hin, T', hset, hproj⟩ | ⟨hin, hsame⟩
+      · rw [hset, C05.tick_get_set, C05.tick_get_set]
+        by_cases e : lo = nti
+        · have e' : ¬ hi = nti := by omega
+          rw [if_pos e, if_neg e', hproj, ← e]
+          exact cross_lower_right lo hi _ _ G hlh hG hoL
+        · rw [if_neg e]
+          by_cases e' : hi = nti
+          · rw [if_pos e', hproj, ← e']
+            exact cross_upper_right lo hi _ _ G hlh hG hoH
+          · rw [if_neg e']
+            exact inside_cur_congr _ _ _ _ _ _ _ (by constructor <;> intro h <;> omega) (by constructor <;> intro h <;> omega)
+      · rw [hsame]
+        have e : ¬ lo = nti := fun e => by rw [e, hin] at il; cases il
+        have e' : ¬ hi = nti := fun e => by rw [e, hin] at ih; cases ih
+        exact inside_cur_congr _ _ _ _ _ _ _ (by constructor <;> intro h <;> omega) (by constructor <;> intro h <;> omega)
+  · rw [hticks]
+    by_cases hd : c.aToB = true
+    · rw [if_pos hd] at hpath
+      obtain ⟨hle, hno⟩ := hpath
+      have nl : ¬ (s'.tick < lo ∧ lo ≤ s.tick) := fun ⟨a, b⟩ => by have := hno lo a b gl; rw [il] at this; cases this
+      have nh : ¬ (s'.tick < hi ∧ hi ≤ s.tick) := fun ⟨a, b⟩ => by have := hno hi a b gh; rw [ih] at this; cases this
+      exact inside_cur_congr _ _ _ _ _ _ _ (by constructor <;> intro h <;> omega) (by constructor <;> intro h <;> omega)
+    · rw [if_neg hd] at hpath
+      obtain ⟨hle, hno⟩ := hpath
+      have nl : ¬ (s.tick < lo ∧ lo ≤ s'.tick) := fun ⟨a, b⟩ => by have := hno lo a b gl; rw [il] at this; cases this
+      have nh : ¬ (s.tick < hi ∧ hi ≤ s'.tick) := fun ⟨a, b⟩ => by have := hno hi a b gh; rw [ih] at this; cases this
+      exact inside_cur_congr _ _ _ _ _ _ _ (by constructor <;> intro h <;> omega) (by constructor <;> intro h <;> omega)
+
+
 /-! ### the global growth advances while the tick index stands still -/
 
 theorem advance_inside (tokA : Bool) (ticks : TickMap) (cur lo hi : Int) (g d : Nat) (wf : TicksWF ticks) (hg : g < TWO128)
@@ -314,7 +399,7 @@ theorem swap_fee_growth (p : PoolD) (ticks : TickMap) (ps : List (Nat × Positio
         inside (!aToB) u.ticks u.tick lo hi (if aToB then p.fgB else p.fgA) =
           inside (!aToB) ticks p.tick lo hi (if aToB then p.fgB else p.fgA)) ∧
       TicksWF u.ticks ∧ u.fgIn < TWO128 := by
-  obtain ⟨rewards, fm, s, ok, P0, hloop, hfin⟩ :=
+  obtain ⟨rewards, fm, s, ok, P0, hloop, hfin, _⟩ :=
     swap_setup p ticks ps arrays amount limit isInput aToB now fuel af u hts hseq hliq tf tp hL hfee hamt haf h
   have hGo : globOther (swapCtxOf p arrays limit isInput aToB rewards) < TWO128 := by
     unfold globOther swapCtxOf
